@@ -289,7 +289,8 @@ func newOperator(expr parser.Expr, storage *engstore.SelectorPool, opts *query.O
 		return exchange.NewCoalesce(model.NewVectorPool(stepsBatch), operators...), nil
 
 	case *logicalplan.RemoteExecution:
-		qry, err := e.Engine.NewRangeQuery(&promql.QueryOpts{}, e.Query, opts.Start, opts.End, opts.Step)
+		// The remote engines evaluate their part with the lookback of this query.
+		qry, err := e.Engine.NewRangeQuery(&promql.QueryOpts{LookbackDelta: opts.LookbackDelta}, e.Query, opts.Start, opts.End, opts.Step)
 		if err != nil {
 			return nil, err
 		}
